@@ -708,5 +708,9 @@ def run(ctx, ck):
     ck.rule('R-CACHE.no-inplace', 'values read from a cache are not updated in place')
     run_cache_rule(ctx, ck, only=keys)
     ck.info('memo_sites_in_far_field_closure', len(keys))
+    # the per-half weights of the far field treat both halves of a grounded pulse alike
+    ck.rule('R-SYM.half-weights', 'a store into the per-half far-field weights that picks the half by a literal index is made for both halves')
+    from ._sym import check_half_weight_symmetry
+    ck.floor('per-half weight arrays in the far field', check_half_weight_symmetry(ctx, ck), 2)
     ck.undecided += ['agreement with the radiation integral (1e-4 / 2 %)', '360-degree periodicity',
                      'zenith gain independent of azimuth']
